@@ -35,14 +35,38 @@ Proof.
   - apply IH. intros j i Hj Hi. specialize (H (S j) i). rewrite Nat.add_succ_r in H. apply H; cbn; [lia | exact Hi].
 Qed.
 
-Theorem cp_normalize_is_rescaling (s : list nat) (Rk : nat) (st : blocks (@blk R)) :
-  rescaling Rops s Rk st (cp_normalize_R s st).
+Theorem normalize_columns_is_rescaling (s : list nat) (Rk : nat) (st : blocks (@blk R)) :
+  rescaling Rops s Rk st (normalize_columns s st).
 Proof.
   exists (fun r => map (fun k => colnorm s st k r) (seq 0 (length s))). split; intros r _.
-  - unfold cols_of. apply (scaled_seq (fun k i => st k i r) (fun k i => cp_normalize_R s st k i r) (fun k => colnorm s st k r) s 0%nat).
-    intros j i Hj Hi. cbn [Nat.add]. unfold cp_normalize_R. destruct (Nat.ltb_spec j (length s)); [|lia].
+  - unfold cols_of. apply (scaled_seq (fun k i => st k i r) (fun k i => normalize_columns s st k i r) (fun k => colnorm s st k r) s 0%nat).
+    intros j i Hj Hi. cbn [Nat.add]. unfold normalize_columns. destruct (Nat.ltb_spec j (length s)); [|lia].
     now apply colnorm_scales.
-  - unfold w_of, cp_normalize_R. rewrite Nat.ltb_irrefl, Nat.eqb_refl. reflexivity.
+  - unfold w_of, normalize_columns. rewrite Nat.ltb_irrefl, Nat.eqb_refl. reflexivity.
+Qed.
+
+(* the absorption step: factor 0 takes the weights, the weights become ones; every entry of the represented tensor is unchanged
+   (also for zero or negative weights, where this step is NOT a rescaling in the sense of Model/Errors.v) *)
+Lemma absorb_weights_entry (s : list nat) (Rk : nat) (st : blocks (@blk R)) idx : (0 < length s)%nat -> inb s idx ->
+  cp_entry Rops Rk (w_of s (absorb_weights s st)) (cols_of s (absorb_weights s st)) idx
+  = cp_entry Rops Rk (w_of s st) (cols_of s st) idx.
+Proof.
+  intros Hs Hin. destruct s as [|n0 s']; [simpl in Hs; lia|]. destruct idx as [|i0 idx']; [simpl in Hin; tauto|].
+  unfold cp_entry. apply S_ext; intros r _. unfold w_of, cols_of. cbn [length seq map].
+  unfold absorb_weights at 1. cbn [length]. rewrite Nat.eqb_refl. cbn [Nat.eqb].
+  cbn [prodl].
+  assert (Hrest : map (fun k i => absorb_weights (n0 :: s') st k i r) (seq 1 (length s')) = map (fun k i => st k i r) (seq 1 (length s'))).
+  { apply map_ext_in. intros k Hk. apply in_seq in Hk. unfold absorb_weights. cbn [length].
+    destruct (Nat.eqb_spec k 0); [lia|]. destruct (Nat.eqb_spec k (S (length s'))); [lia|]. reflexivity. }
+  rewrite Hrest. unfold absorb_weights. cbn [length Nat.eqb]. simpl. ring.
+Qed.
+
+Theorem cp_normalize_preserves_error (s : list nat) (X : list nat -> R) (Rk : nat) (st : blocks (@blk R)) : (0 < length s)%nat ->
+  cp_err2 Rops s X Rk (cp_normalize_R s st) = cp_err2 Rops s X Rk st.
+Proof.
+  intros Hs. unfold cp_normalize_R.
+  rewrite (rescaling_err2 Rops Rth s X Rk _ _ (normalize_columns_is_rescaling s Rk (absorb_weights s st))).
+  unfold cp_err2, err2_true, dist2. apply SI_ext; intros idx Hin. now rewrite absorb_weights_entry.
 Qed.
 
 (* the composed loop theorem with the REAL normalisation: no hypothesis on the normalisation is left *)
@@ -55,12 +79,115 @@ Theorem cp_loop_reports_true_errors_R (s : list nat) (X : list nat -> R) (Rk : n
   last_report_ok blk R R (cp_err2 Rops s X Rk) (fun e => e) l /\
   last (trace l) EBreak = EReturn (cur l).
 Proof.
-  intros Hn WF Hl n init. apply (cp_loop_reports_true_errors Rops Rth s X Rk wm Orc C); auto.
-  intros st. rewrite Hn. apply cp_normalize_is_rescaling.
+  intros Hn WF Hl n init. apply (cp_loop_reports_true_errors_gen Rops Rth s X Rk wm Orc C); auto.
+  intros st. rewrite Hn. apply cp_normalize_preserves_error. lia.
 Qed.
+
+(* the absorption step matters: incoming weight -2, factor columns (3, 4) and (1): the code returns weight 10, factor-0 column
+   (-3/5, -4/5); dividing each factor by its own norm and multiplying the OLD weight by the norms would give weight -10 *)
+Example cp_normalize_negative_weight :
+  let st : blocks (@blk R) := fun k i _ => match k with 0%nat => (match i with 0%nat => 3 | _ => 4 end) | 1%nat => 1 | _ => -2 end in
+  w_of [2%nat; 1%nat] (absorb_weights [2%nat; 1%nat] st) 0%nat = 1 /\
+  absorb_weights [2%nat; 1%nat] st 0%nat 0%nat 0%nat = -6 /\ absorb_weights [2%nat; 1%nat] st 0%nat 1%nat 0%nat = -8.
+Proof. cbv zeta. unfold w_of, absorb_weights. cbn. repeat split; lra. Qed.
 
 (* the transcription computes: a column (3, 4) has norm 5 *)
 Example colnorm_3_4 : colnorm [2%nat] (fun _ i _ => match i with 0%nat => 3 | _ => 4 end) 0 0 = 5.
 Proof.
   unfold colnorm, Fsum. simpl. replace (0 + 3 * 3 + 4 * 4) with (5 * 5) by ring. apply sqrt_square. lra.
 Qed.
+
+(* ---------------------------------------------------------------- round 5: the EXECUTED model of cp_normalize (Model/Errors.v:
+   cp_normalize_F, column norms handed in as an answer tape) is the transcription over the reals as soon as the tape holds
+   non-negative numbers whose squares are the column sums of squares - exactly what Corr/C06.v:KNormalize validates (up to
+   rounding) before it compares the model's output with the implementation's. *)
+From Coq Require Import FunctionalExtensionality.
+
+Lemma nonzero_scale_F_R d : nonzero_scale_F Rops d = nonzero_scale d.
+Proof.
+  unfold nonzero_scale_F, nonzero_scale, feqb. cbn. destruct (Req_EM_T d 0) as [-> | Hn].
+  - rewrite (proj2 (Rleb_true 0 0)) by lra. reflexivity.
+  - destruct (Rleb d 0) eqn:H1; destruct (Rleb 0 d) eqn:H2; cbn; try reflexivity.
+    apply Rleb_true in H1. apply Rleb_true in H2. exfalso; apply Hn; lra.
+Qed.
+
+Lemma colsq_nonneg s (st : blocks (@blk R)) k r : 0 <= colsq Rops s st k r.
+Proof. unfold colsq. apply Fsum_nonneg. intros i _. cbn. nra. Qed.
+
+Lemma colnorm_sqrt_colsq s st k r : colnorm s st k r = sqrt (colsq Rops s st k r).
+Proof. reflexivity. Qed.
+
+Definition good_tape (s : list nat) (st : blocks (@blk R)) (sc : nat -> nat -> R) : Prop :=
+  forall k r, (k < length s)%nat -> 0 <= sc k r /\ sc k r * sc k r = colsq Rops s (absorb_weights_F Rops s st) k r.
+
+Lemma colnorm_unique s st k r c : 0 <= c -> c * c = colsq Rops s st k r -> c = colnorm s st k r.
+Proof. intros Hc Heq. rewrite colnorm_sqrt_colsq, <- Heq. symmetry. now apply sqrt_square. Qed.
+
+(* the real column norms ARE a good tape (the hypothesis is satisfiable for every state) *)
+Lemma colnorm_good_tape s st : good_tape s st (colnorm s (absorb_weights s st)).
+Proof.
+  intros k r _. rewrite colnorm_sqrt_colsq. split; [apply sqrt_pos|].
+  change (absorb_weights_F Rops s st) with (absorb_weights s st). apply sqrt_sqrt, colsq_nonneg.
+Qed.
+
+Theorem cp_normalize_F_is_cp_normalize_R s st sc : good_tape s st sc ->
+  forall k i r, cp_normalize_F Rops s sc st k i r = cp_normalize_R s st k i r.
+Proof.
+  intros HT k i r. unfold cp_normalize_F, cp_normalize_R, normalize_columns_F, normalize_columns.
+  change (absorb_weights_F Rops s st) with (absorb_weights s st) in *.
+  destruct (Nat.ltb_spec k (length s)) as [Hk | Hk].
+  - rewrite nonzero_scale_F_R. destruct (HT k r Hk) as [H0 H1].
+    rewrite (colnorm_unique s (absorb_weights s st) k r (sc k r) H0 H1). reflexivity.
+  - destruct (k =? length s); [|reflexivity]. cbn [fmul Rops]. f_equal. f_equal.
+    apply map_ext_in. intros k' Hk'. apply in_seq in Hk'. destruct (HT k' r) as [H0 H1]; [lia|].
+    now apply colnorm_unique.
+Qed.
+
+(* hence the executed model, run with ANY validated tape, keeps the squared residual of the represented CP tensor *)
+Theorem cp_normalize_tape_preserves_error (s : list nat) (X : list nat -> R) (Rk : nat) (st : blocks (@blk R)) (sc : nat -> nat -> R) :
+  (0 < length s)%nat -> good_tape s st sc ->
+  cp_err2 Rops s X Rk (cp_normalize_F Rops s sc st) = cp_err2 Rops s X Rk st.
+Proof.
+  intros Hs HT.
+  replace (cp_normalize_F Rops s sc st) with (cp_normalize_R s st).
+  - now apply cp_normalize_preserves_error.
+  - extensionality k. extensionality i. extensionality r. symmetry. now apply cp_normalize_F_is_cp_normalize_R.
+Qed.
+
+(* ---------------------------------------------------------------- round 5: tucker_normalize (executed model, validated tape) keeps every
+   entry of the represented Tucker tensor: zero columns included (their scale is replaced by 1 and the core slice becomes 0) *)
+Definition good_tucker_tape (s : list nat) (st : blocks (@blk R)) (sc : nat -> nat -> R) : Prop :=
+  forall k a, (k < length s)%nat -> 0 <= sc k a /\ sc k a * sc k a = colsq Rops s st k a.
+
+Lemma tscaled_seq (f f' : nat -> nat -> nat -> R) (d : nat -> nat -> R) : forall s rs a0, length rs = length s ->
+  (forall j i a, (j < length s)%nat -> (i < nth j s 0)%nat -> f (a0 + j)%nat i a = d (a0 + j)%nat a * f' (a0 + j)%nat i a) ->
+  tscaled Rops s rs (map f (seq a0 (length s))) (map f' (seq a0 (length s))) (map d (seq a0 (length s))).
+Proof.
+  induction s as [|n s IH]; intros [|r rs] a0 HL H; cbn in HL; try discriminate; cbn; [exact I|]. split.
+  - intros i a Hi _. specialize (H 0%nat i a). rewrite Nat.add_0_r in H. apply H; cbn; [lia | exact Hi].
+  - apply IH; [lia|]. intros j i a Hj Hi. specialize (H (S j) i a). rewrite Nat.add_succ_r in H. apply H; cbn; [lia | exact Hi].
+Qed.
+
+Theorem tucker_normalize_tape_preserves_tensor (s rs : list nat) (G : list nat -> R) (st : blocks (@blk R)) (sc : nat -> nat -> R) :
+  length rs = length s -> good_tucker_tape s st sc ->
+  forall idx, inb s idx ->
+  tucker_entry Rops rs (tucker_normalize_core Rops (length s) sc G) (tucker_us (length s) (tucker_normalize_factors Rops sc st)) idx
+  = tucker_entry Rops rs G (tucker_us (length s) st) idx.
+Proof.
+  intros HL HT idx Hi. unfold tucker_us.
+  apply (tucker_entry_rescale Rops Rth s rs G _ _ _ (map (fun k a => sc k a) (seq 0 (length s)))); [| reflexivity | exact Hi].
+  apply (tscaled_seq (fun k i a => st k i a) (fun k i a => tucker_normalize_factors Rops sc st k i a) (fun k a => sc k a) s rs 0%nat HL).
+  intros j i a Hj Hij. cbn [Nat.add]. unfold tucker_normalize_factors. rewrite nonzero_scale_F_R.
+  destruct (HT j a Hj) as [H0 H1]. rewrite (colnorm_unique s st j a (sc j a) H0 H1). now apply colnorm_scales.
+Qed.
+
+Corollary tucker_normalize_tape_preserves_error (s rs : list nat) (X G : list nat -> R) (st : blocks (@blk R)) (sc : nat -> nat -> R) :
+  length rs = length s -> good_tucker_tape s st sc ->
+  dist2 Rops s X (tucker_entry Rops rs (tucker_normalize_core Rops (length s) sc G) (tucker_us (length s) (tucker_normalize_factors Rops sc st)))
+  = dist2 Rops s X (tucker_entry Rops rs G (tucker_us (length s) st)).
+Proof.
+  intros HL HT. unfold dist2. apply SI_ext; intros idx Hi. now rewrite (tucker_normalize_tape_preserves_tensor s rs G st sc HL HT idx Hi).
+Qed.
+
+Lemma colnorm_good_tucker_tape s st : good_tucker_tape s st (colnorm s st).
+Proof. intros k a _. rewrite colnorm_sqrt_colsq. split; [apply sqrt_pos | apply sqrt_sqrt, colsq_nonneg]. Qed.
